@@ -7,10 +7,9 @@ import DEngine.Lemmas.LeaseTiming
 
 Part (a): the packed `(term & 0xFFFF, 48-bit deadline)` word — round trip, validity arithmetic, the 16-bit term
 wrap, the `pack` assertion. Part (b): revocation — `revoke` invalidates, the role change always revokes and no fast
-path read is served afterwards; "revoked from the step-down decision until the role change" is **false as coded**
-(F13: the ClusterConfUpdate step-down branch does not adopt the higher term, so a queued AppendResult arms the
-lease; F13b: that branch does not even revoke at once; the AppendEntries branch had the same defect until fix
-05b4801) — negation witnesses + `_partial` theorem for the term-adopting triggers. Part (c) (timing) is in the second half of this file.
+path read is served afterwards; `revoked_from_stepdown`: from the moment the leader handles any event that makes
+it step down, no observation shows a usable lease (full; it was false before the fixes 05b4801 — AppendEntries
+branch — and the F13/F13b fix — ClusterConfUpdate branch —, whose old witnesses are regression cases). Part (c) (timing) is in the second half of this file.
 Config clause: `DEngine.C34.lease_lt_election` (re-used, not re-modelled).
 -/
 namespace DEngine.C12
@@ -172,30 +171,19 @@ def RevokedFromStepDownStatement : Prop :=
     s.stepped = false → (∀ x ∈ s.logTerms, x ≤ s.term) → isTrigger s.term op = true →
     NoLease (step c s op).2.1 ∧ ∀ o ∈ (run c (step c s op).1 ops).1, NoLease o
 
-/-- F13 witness: higher-term ClusterConfUpdate (term NOT adopted, nothing revoked — the lease is not armed yet),
-    then a queued AppendResult of the leader's own term arms the lease before `BecomeFollower` is processed. -/
 def f13Cfg : Cfg := ⟨3, [], 250⟩
 def f13State : LState := (run f13Cfg (initState 2 1 [1, 2, 2]) [.clock 10, .hb]).2.2
-theorem f13_rearm_witness :
-    (run f13Cfg (step f13Cfg f13State (.cu 3)).1 [.ack 2 2 (.success 3) 1, .read]).1
-      = [.state ⟨2, 3, 2, 260, true⟩ (some true), .probe true true true] := by decide
-
-/-- F13b witness: the ClusterConfUpdate step-down branch does not revoke at all until the role changes. -/
 def f13bState : LState := (run f13Cfg (initState 2 1 [1, 2, 2]) [.clock 10, .hb, .ack 2 2 (.success 3) 1]).2.2
-theorem f13b_no_revoke_witness :
-    (step f13Cfg f13bState (.cu 3)).2.1 = .state ⟨2, 3, 2, 260, true⟩ (some true) := by decide
-
-theorem revoked_from_stepdown_false : ¬ RevokedFromStepDownStatement := by
-  intro h
-  have := (h f13Cfg f13State (.cu 3) [.ack 2 2 (.success 3) 1, .read] (by decide) (by decide) (by decide)).2
-  rw [f13_rearm_witness] at this
-  have h2 := this (.probe true true true) (by simp)
-  simp [NoLease] at h2
+/-- the former F13 / F13b witnesses now show a revoked lease -/
+example : (run f13Cfg (step f13Cfg f13State (.cu 3)).1 [.ack 2 2 (.success 3) 1, .read]).1
+      = [.state ⟨3, 1, 0, 0, false⟩ (some true), .probe false false false] := by decide
+example : (step f13Cfg f13bState (.cu 3)).2.1 = .state ⟨3, 3, 0, 0, false⟩ (some true) := by decide
 
 /-- the triggers in which the leader adopts the higher term before it queues `BecomeFollower` -/
 def adopts (term : Nat) : Op → Bool
   | .vote t => t > term
   | .ae t => t > term
+  | .cu t => t > term
   | .ack _ _ .netErr _ => false
   | .ack _ rt (.higherTerm t) _ => rt > term || (rt == term && t > term)
   | .ack _ rt _ _ => rt > term
@@ -302,7 +290,10 @@ theorem step_dead (c : Cfg) (s : LState) (op : Op) (h : Dead s) :
   | cu t =>
     simp only [step]; split
     · exact ⟨⟨hp, hl⟩, trivial⟩
-    · unfold onConfUpdate; split <;> exact ⟨⟨hp, hl⟩, by simp [NoLease, observe, hp, isValid_revoked]⟩
+    · unfold onConfUpdate; split
+      · exact ⟨⟨hp, hl⟩, by simp [NoLease, observe, hp, isValid_revoked]⟩
+      · rename_i h1
+        exact ⟨⟨rfl, fun x hx => by have := hl x hx; simp only; omega⟩, by simp [NoLease, observe, isValid_revoked]⟩
   | ack p rt r rd =>
     simp only [step]; split
     · exact ⟨⟨hp, hl⟩, trivial⟩
@@ -320,11 +311,11 @@ theorem run_dead (c : Cfg) (ops : List Op) : ∀ s, Dead s → ∀ o ∈ (run c 
     · exact hn
     · exact ih _ hd o ho
 
-/-- **Partial theorem (exact excluded trigger: the step-down was decided by a higher-term ClusterConfUpdate, the
-    one branch that does not adopt the term).** For the triggers that adopt the higher term — VoteRequest,
-    AppendEntries (since fix 05b4801), higher response term, embedded HigherTerm result — the lease is revoked at once and stays
-    unusable under every later sequence of acknowledgements, heartbeats, clock values and inbound events. -/
-theorem revoked_from_stepdown_partial (c : Cfg) (s : LState) (op : Op) (ops : List Op)
+/-- **Stepping down invalidates the lease at once and for good** (every trigger adopts the higher term: VoteRequest,
+    AppendEntries, ClusterConfUpdate, higher response term, embedded HigherTerm result): the lease is revoked by
+    the handler that decides the step-down and stays unusable under every later sequence of acknowledgements,
+    heartbeats, clock values and inbound events. -/
+theorem revoked_from_stepdown_adopting (c : Cfg) (s : LState) (op : Op) (ops : List Op)
     (hs : s.stepped = false) (hlog : ∀ x ∈ s.logTerms, x ≤ s.term) (htrig : adopts s.term op = true) :
     NoLease (step c s op).2.1 ∧ ∀ o ∈ (run c (step c s op).1 ops).1, NoLease o := by
   have hd : Dead (step c s op).1 ∧ NoLease (step c s op).2.1 := by
@@ -337,6 +328,11 @@ theorem revoked_from_stepdown_partial (c : Cfg) (s : LState) (op : Op) (ops : Li
       have ht : ¬ s.term ≥ t := by have : t > s.term := by simpa [adopts] using htrig
                                    omega
       simp only [step, hs, onAppendEntries, ht, if_false]
+      exact ⟨⟨rfl, fun x hx => by have := hlog x hx; show x < t; omega⟩, by simp [NoLease, observe, isValid_revoked]⟩
+    | cu t =>
+      have ht : ¬ s.term ≥ t := by have : t > s.term := by simpa [adopts] using htrig
+                                   omega
+      simp only [step, hs, onConfUpdate, ht, if_false]
       exact ⟨⟨rfl, fun x hx => by have := hlog x hx; show x < t; omega⟩, by simp [NoLease, observe, isValid_revoked]⟩
     | ack p rt r rd =>
       simp only [step, hs]
@@ -371,9 +367,19 @@ theorem revoked_from_stepdown_partial (c : Cfg) (s : LState) (op : Op) (ops : Li
       exact ⟨key, by simpa [NoLease] using observe_revoked _ key.1⟩
     | _ => simp [adopts] at htrig
   exact ⟨hd.2, run_dead c ops _ hd.1⟩
-/-- non-vacuity of the partial theorem's hypotheses: a leader with a valid lease receives a higher-term vote request -/
+/-- non-vacuity: a leader with a valid lease receives a higher-term vote request -/
 example : f13bState.stepped = false ∧ (∀ x ∈ f13bState.logTerms, x ≤ f13bState.term) ∧
     adopts f13bState.term (.vote 3) = true ∧ (observe f13bState).valid = true := by decide
+
+theorem adopts_eq_isTrigger (term : Nat) (op : Op) : adopts term op = isTrigger term op := by
+  cases op with
+  | ack p rt r rd => cases r <;> rfl
+  | _ => rfl
+
+/-- **(b), full strength.** -/
+theorem revoked_from_stepdown : RevokedFromStepDownStatement := by
+  intro c s op ops hs hlog htrig
+  exact revoked_from_stepdown_adopting c s op ops hs hlog (by rw [adopts_eq_isTrigger]; exact htrig)
 
 /-! ## (c) timing: a valid lease excludes another leader — under H_sticky and H_freshRound -/
 open DEngine.LeaseTiming
